@@ -24,6 +24,17 @@ class Stub:
         return self.t[name] * 1.0
 
 
+class KeepStub(Stub):
+    """A model that computes its (constant) costs once and hands out the tensors it keeps."""
+
+    def __init__(self, costs):
+        super().__init__(costs)
+        self.kept = {k: v * 1.0 for k, v in self.t.items()}
+
+    def get_cost(self, name=None):
+        return self.kept[name]
+
+
 def _close(a, b, rel=REL):
     return abs(a - b) <= rel * max(abs(a), abs(b), 1e-30)
 
@@ -272,9 +283,20 @@ def oracle_base(case) -> Result:
     import torch
     from plinio.regularizers import BaseRegularizer
     res = Result()
-    m = Stub({'x': case['cost']})
-    v = BaseRegularizer('x', case['strength'])(m)
+    keeps = case['cost'] > 0 and int(case['cost'] * 1e6) % 2 == 0     # 'every model'
+    m = (KeepStub if keeps else Stub)({'x': case['cost']})
+    reg = BaseRegularizer('x', case['strength'])
+    v = reg(m)
     c32 = float(torch.tensor(case['cost'], dtype=torch.float32))
+    if keeps:
+        # the regularizer reads the model's cost: it does not change it, and asking again gives
+        # the same answer
+        if float(m.get_cost('x')) != c32:
+            res.bad('base-regularizer-changed-the-cost-held-by-the-model', before=c32,
+                    after=float(m.get_cost('x')), strength=case['strength'])
+        v2 = reg(m)
+        if float(v2) != float(v):
+            res.bad('base-regularizer-second-call-differs', first=float(v), second=float(v2))
     if not _close(float(v), c32 * case['strength'], 1e-6) and not (float(v) == 0 and
                                                                  c32 * case['strength'] < 1e-38):
         res.bad('base-regularizer-not-strength-times-cost', value=float(v), cost=c32,
